@@ -191,7 +191,8 @@ def seeded_for(prop):
             continue
         with open(mp) as f:
             meta = json.load(f)
-        if meta.get("property") == prop:
+        # a change that only a sibling property's check reports is re-run under that check (`self_test_property`)
+        if (meta.get("self_test_property") or meta.get("property")) == prop:
             out.append((os.path.join(d, n), meta))
     return out
 
